@@ -13,6 +13,47 @@ fn main() {
         }
         vh_engine::iso::worker_main(TARGETS);
     }
+    if args.get(1).map(String::as_str) == Some("dump-seeds") {
+        // vh-c02 dump-seeds <dir> [casc]: libFuzzer corpus; byte 0 = target selector
+        let dir = std::path::PathBuf::from(&args[2]);
+        let casc = args.get(3).map(String::as_str) == Some("casc");
+        std::fs::create_dir_all(&dir).expect("corpus dir");
+        let mut n = 0;
+        let names: Vec<&str> = if casc { vh_c02::targets::CASC_TARGETS.to_vec() } else { TARGETS.iter().map(|t| t.name).collect() };
+        for (i, name) in names.iter().enumerate() {
+            for (sname, bytes) in vh_c02::seeds::seeds_for(name) {
+                if bytes.len() > 64 * 1024 {
+                    continue;
+                }
+                let mut f = vec![i as u8];
+                f.extend_from_slice(&bytes);
+                let h = vh_engine::util::fnv64(&f);
+                let _ = sname;
+                std::fs::write(dir.join(format!("{name}-{h:016x}")), f).expect("write seed");
+                n += 1;
+            }
+        }
+        println!("{n} seeds written to {}", dir.display());
+        return;
+    }
+    if args.get(1).map(String::as_str) == Some("artifact-to-replay") {
+        // vh-c02 artifact-to-replay <artifact> <out.json> [casc]: a libFuzzer crash input as a replay file
+        let data = std::fs::read(&args[2]).expect("artifact");
+        let casc = args.get(4).map(String::as_str) == Some("casc");
+        if data.is_empty() {
+            eprintln!("empty artifact");
+            std::process::exit(2);
+        }
+        let name = if casc {
+            vh_c02::targets::CASC_TARGETS[data[0] as usize % vh_c02::targets::CASC_TARGETS.len()]
+        } else {
+            TARGETS[data[0] as usize % TARGETS.len()].name
+        };
+        let case = vh_c02::driver::IsoCase { target: name.to_string(), origin: format!("libFuzzer artifact {}", args[2]), input: data[1..].to_vec() };
+        let rf = serde_json::json!({"property": if casc { "C08" } else { "C02" }, "section": if casc { "iso-fixpoint" } else { "iso-fuzz" }, "key": "libfuzzer-artifact", "msg": "", "case": case});
+        std::fs::write(&args[3], serde_json::to_string_pretty(&rf).unwrap()).expect("write replay");
+        return;
+    }
     let mut ck = Check::from_args("C02", "exploration");
     let tier = ck.tier;
     ck.extra(
